@@ -773,3 +773,6 @@ V('c11-helper-creates-real', 'C11', None, None, None, rule='C11-L1', patch='beni
    "            return proxy.element_list.create_element(proxy.element_name)")])
 V('c07-helper-other-value', 'C07', None, None, None, rule='C07-K', patch='benign/B4-05/patch.diff', edits=[
   ('hl7apy/core.py', "encoding_chars['FIELD'])", "encoding_chars['COMPONENT'])")])
+
+# ---------------------------------------------------------------- rules added after the third round of seeded changes
+from . import variants_r3  # noqa: E402,F401
